@@ -184,14 +184,24 @@ func IsNilConst(v ssa.Value) bool {
 }
 
 // AtomicOp classifies a sync/atomic call: op in {"Load","Store","Add","CAS","Swap"} and the address operand.
+// Both the function forms (atomic.LoadUint64(&x)) and the methods of the typed atomics of Go 1.19
+// (x.Load() on atomic.Int64 / Uint64 / Int32 / Uint32 / Uintptr / Bool / Pointer[T]) are recognised; for the
+// methods the address operand is the receiver. atomic.Value is not an atomic word in this sense.
 func AtomicOp(c ssa.CallInstruction) (op string, addr ssa.Value, ok bool) {
 	id := CalleeID(c)
-	if !strings.HasPrefix(id, "sync/atomic.") {
-		return "", nil, false
-	}
-	name := strings.TrimPrefix(id, "sync/atomic.")
 	args := c.Common().Args
 	if len(args) == 0 {
+		return "", nil, false
+	}
+	name := ""
+	switch {
+	case strings.HasPrefix(id, "sync/atomic."):
+		name = strings.TrimPrefix(id, "sync/atomic.")
+	case strings.HasPrefix(id, "(*sync/atomic.") && !strings.HasPrefix(id, "(*sync/atomic.Value)"):
+		if i := strings.LastIndex(id, ")."); i >= 0 {
+			name = id[i+2:]
+		}
+	default:
 		return "", nil, false
 	}
 	switch {
@@ -199,7 +209,7 @@ func AtomicOp(c ssa.CallInstruction) (op string, addr ssa.Value, ok bool) {
 		return "Load", args[0], true
 	case strings.HasPrefix(name, "Store"):
 		return "Store", args[0], true
-	case strings.HasPrefix(name, "Add"):
+	case strings.HasPrefix(name, "Add"), strings.HasPrefix(name, "And"), strings.HasPrefix(name, "Or"):
 		return "Add", args[0], true
 	case strings.HasPrefix(name, "CompareAndSwap"):
 		return "CAS", args[0], true
@@ -207,6 +217,28 @@ func AtomicOp(c ssa.CallInstruction) (op string, addr ssa.Value, ok bool) {
 		return "Swap", args[0], true
 	}
 	return "", nil, false
+}
+
+// IsAtomicPointerType reports whether t is unsafe.Pointer or sync/atomic.Pointer[T] (a pointer-sized word that
+// holds a pointer), IsAtomicWordType whether it is a typed atomic integer.
+func IsAtomicPointerType(t types.Type) bool {
+	if b, ok := t.Underlying().(*types.Basic); ok && b.Kind() == types.UnsafePointer {
+		return true
+	}
+	if n, ok := t.(*types.Named); ok && n.Obj().Pkg() != nil && n.Obj().Pkg().Path() == "sync/atomic" && n.Obj().Name() == "Pointer" {
+		return true
+	}
+	return false
+}
+
+func IsAtomicWordType(t types.Type) bool {
+	if n, ok := t.(*types.Named); ok && n.Obj().Pkg() != nil && n.Obj().Pkg().Path() == "sync/atomic" {
+		switch n.Obj().Name() {
+		case "Int64", "Uint64", "Int32", "Uint32", "Uintptr", "Bool":
+			return true
+		}
+	}
+	return false
 }
 
 // Specialisation fixes boolean / integer parameters to constants.
